@@ -156,6 +156,12 @@ class Mutator:
             else None
         )
 
+        # Cluster labels -> indices of the modes fitted from those clusters
+        mode_index, mode_labels = mode_stats.mode_index(
+            self.state.get_current("assignments"), self.state.get_current("u")
+        )
+        self.state.set_current("assignments", mode_labels)
+
         (
             u,
             x,
@@ -170,7 +176,7 @@ class Mutator:
             x=self.state.get_current("x"),
             logl=self.state.get_current("logl"),
             blobs=blobs,
-            assignments=self.state.get_current("assignments"),
+            assignments=mode_index,
             beta=self.state.get_current("beta"),
             mode_stats=mode_stats,
             log_likelihood=self.log_likelihood,
